@@ -16,7 +16,7 @@ RULE = ('(A) every ordered pair (Y, X) of restricted-growth strings of length n 
         '(B) replication families (x10, x1000) of every n<=5 table and extreme structures up to 10^6 rows. '
         'distinct_nontrivial = distinct unordered pairs {Y,X} in which both vectors are non-constant and Y != X')
 ASSUMPTIONS = ['tolerance |got-ref| <= 1e-5 + 1e-5*|ref| (float32 return type; observed noise ~1e-7)',
-               'beyond n=8 only the replication and extreme families are covered']
+               'beyond n=9 (thorough) / n=7 (quick) only the replication and extreme families are covered']
 
 
 def check_pair(f, ty, ay, tx, ax, st, hy, hx, full=True):
@@ -33,6 +33,15 @@ def check_pair(f, ty, ay, tx, ax, st, hy, hx, full=True):
             st.violation({'Y': [v + 3 for v in ty], 'X': [v + 1 for v in tx]}, f'exception: {s3}', {'kind': 'exception'})
         elif not est.near(float(s3), ref):
             st.violation({'Y': [v + 3 for v in ty], 'X': [v + 1 for v in tx]}, f'codes shifted away from 0: score {float(s3)!r} but plug-in MI={ref!r}', {'kind': 'value_offset'})
+        if len(ty) <= 5:
+            # codes that are multiples of 2^16 / 2^8 (any narrower integer type used for codes or counts folds them together)
+            for my, mx in ((65536, 1), (1, 65536), (256, 256)):
+                ok4, s4 = safe(f, ay * my, ax * mx, est._F1, False)
+                st.count('evaluations')
+                if not ok4:
+                    st.violation({'Y': [v * my for v in ty], 'X': [v * mx for v in tx]}, f'exception: {s4}', {'kind': 'exception'})
+                elif not est.near(float(s4), ref):
+                    st.violation({'Y': [v * my for v in ty], 'X': [v * mx for v in tx]}, f'codes spread over a wide range: score {float(s4)!r} but plug-in MI={ref!r}', {'kind': 'value_wide_codes'})
     if not (ok1 and ok2):
         st.violation({'Y': ty, 'X': tx}, f'exception: {s1 if not ok1 else s2}', {'kind': 'exception'})
         return
@@ -162,12 +171,12 @@ def _extreme(n):
 
 
 def run(ctx):
-    nmax = 8 if ctx.thorough else 7
+    nmax = 9 if ctx.thorough else 7
     jobs = []
     for n in range(1, nmax + 1):
         cnt = enum.BELL[n]
         # triangular workload: more shards for big n, split unevenly is fine
-        for lo, hi in shards(cnt, 64 if n >= 7 else (16 if n >= 5 else 1)):
+        for lo, hi in shards(cnt, 512 if n >= 9 else (64 if n >= 7 else (16 if n >= 5 else 1))):
             jobs.append((n, lo, hi))
     jobs.sort(key=lambda j: -(j[2] - j[1]) * (enum.BELL[j[0]] - j[1]))
     for st in pmap(_shard_pairs, jobs):
